@@ -207,5 +207,3 @@ func cmdTrail(args []string) {
 		fmt.Printf("  pc %s\n", c)
 	}
 }
-
-func cmdCheck(args []string) int { fmt.Println("not yet"); return 2 }
